@@ -11,6 +11,7 @@
          TRANSFORMS.pop never reaches a dict owned by another generator class.
   C15.d  shared Expr instances are never embedded (same rule as C08.c).
   C15.e  name_sequence counters are function-local (never module/class level).
+  C15.f  generator classes that copy a parent's TRANSFORMS are pruned by their own dialect or explicitly.
 Does not decide: arithmetic/time determinism, logging order, AST-diff edit order (ids).
 """
 
@@ -119,6 +120,10 @@ def _body_order_free(m: Module, body: list[ast.stmt], var_names: set[str], T=Non
                     if isinstance(recv, ast.Subscript) and mentions(recv.slice):
                         continue  # keyed by the element
                     return False, f".{a}() builds a sequence in iteration order"
+            if isinstance(n, ast.Call) and isinstance(n.func, ast.Attribute) and n.func.attr == "set" and len(n.args) >= 2 and mentions(n.args[0]):
+                # Expression.set(<element>, ...): a new argument key is *inserted* into the node's ordered args dict, so the order of the
+                # node's children (walk / dump / repr) follows the iteration order
+                return False, ".set(<element>, ...) inserts argument keys in iteration order (children order of the node)"
             if isinstance(n, ast.Call):
                 cn = call_name(n) or ""
                 if cn.split(".")[-1] in ("heappush", "next_name", "next_alias_name", "_next_name", "next"):
@@ -182,12 +187,27 @@ def rule_a(ctx: Ctx) -> None:
             return False, "list comprehension keeps iteration order"
         return False, f"generator consumed by {type(p).__name__}"
 
+    # class-level tables written as set displays but without a static type (`X: t.ClassVar = {...}`): recognised from the class bodies
+    set_attrs: dict[str, str] = {}
+    for c in repo.all_classes():
+        for k, v in c.body_assigns().items():
+            if isinstance(v, (ast.Set, ast.SetComp)) or (isinstance(v, ast.Call) and call_name(v) in ("set", "frozenset")):
+                elems = [e.value for e in getattr(v, "elts", []) if isinstance(e, ast.Constant)]
+                kind = "int" if elems and all(isinstance(e, int) for e in elems) else "str" if elems and all(isinstance(e, str) for e in elems) else "Any"
+                set_attrs.setdefault(k, f"builtins.set[builtins.{kind}]" if kind != "Any" else "builtins.set[Any]")
+
+    def type_of(m: Module, e: ast.AST) -> str | None:
+        ty = T.of(m, e)
+        if (ty is None or ty.startswith("Any")) and isinstance(e, ast.Attribute) and isinstance(e.value, ast.Name) and e.attr in set_attrs and e.attr.isupper():
+            return set_attrs[e.attr] + " (class-body set display)"
+        return ty
+
     for m in repo.modules.values():
         if m.name.startswith(OUT_OF_SCOPE):
             continue
         # for statements
         for n in m.of_type(ast.For):
-            ty = T.of(m, n.iter)
+            ty = type_of(m, n.iter)
             if not _is_settype(ty):
                 continue
             if _elem_deterministic(ty):
@@ -196,7 +216,7 @@ def rule_a(ctx: Ctx) -> None:
             ok, why = _body_order_free(m, n.body, names, T)
             site(m, n, n.iter, ty, ok, why)
         for n in m.of_type(ast.comprehension):
-            ty = T.of(m, n.iter)
+            ty = type_of(m, n.iter)
             if not _is_settype(ty) or _elem_deterministic(ty):
                 continue
             owner = m.parent(n)
@@ -204,12 +224,14 @@ def rule_a(ctx: Ctx) -> None:
             site(m, owner, n.iter, ty, ok, why)
         for n in m.of_type(ast.Call):
             cn = (call_name(n) or "").split(".")[-1]
+            if not cn and isinstance(n.func, ast.Subscript) and isinstance(n.func.value, ast.Name):
+                cn = n.func.value.id  # list[str](xs)
             if cn in ("list", "tuple", "iter", "enumerate", "next", "reversed", "deque", "chain", "zip", "map", "filter", "join", "sorted", "min", "max"):
                 args = list(n.args)
                 for a in args:
                     if isinstance(a, ast.Starred):
                         a = a.value
-                    ty = T.of(m, a)
+                    ty = type_of(m, a)
                     if not _is_settype(ty) or _elem_deterministic(ty):
                         continue
                     if cn in ("sorted", "min", "max"):
@@ -584,7 +606,43 @@ def rule_e(ctx: Ctx) -> None:
     ctx.min_instances("name_sequence_sites", n, 5)
 
 
-RULES = [rule_b_reset, rule_b_generator, rule_c, rule_d, rule_e, rule_a]
+def rule_f(ctx: Ctx) -> None:
+    ctx.rule("C15.f", "import-order independence of generator tables: the Dialect metaclass prunes unsupported JSON-path entries from the TRANSFORMS of each dialect's own "
+                      "generator class only; a generator class that copies another generator's TRANSFORMS in its body and is no dialect's generator class must prune "
+                      "explicitly, otherwise its table depends on whether the parent's dialect had been created when the module was imported")
+    repo = ctx.repo
+    fx = facts(repo)
+    registered = {d["generator_class"].replace(":", ".").split(".")[-1] for d in fx["dialects"].values()}
+    # the metaclass still prunes by popping from gen_cls.TRANSFORMS
+    dm = repo.module("sqlglot.dialects.dialect")
+    pops = [c for c in dm.of_type(ast.Call) if isinstance(c.func, ast.Attribute) and c.func.attr == "pop" and norm(c.func.value).endswith(".TRANSFORMS")]
+    ctx.require(bool(pops), "anchor vanished: the dialect metaclass no longer pops unsupported JSON path parts from generator_class.TRANSFORMS")
+    base = repo.cls("sqlglot.generator", "Generator")
+    n = 0
+    for c in repo.subclasses(base):
+        tr = c.body_assigns().get("TRANSFORMS")
+        if tr is None:
+            continue
+        spreads = [norm(v) for k, v in zip(getattr(tr, "keys", []), getattr(tr, "values", [])) if k is None] if isinstance(tr, ast.Dict) else \
+                  [norm(v) for d_ in ast.walk(tr) if isinstance(d_, ast.Dict) for k, v in zip(d_.keys, d_.values) if k is None]
+        spreads = [x for x in spreads if x.endswith(".TRANSFORMS") and not x.startswith(("generator.Generator", "Generator."))]
+        if not spreads:
+            continue
+        n += 1
+        inst = f"{c.key}|TRANSFORMS copies {spreads[0]}"
+        if c.name in registered:
+            ctx.ok(inst, {"class": c.key, "pruned_by": "its own dialect's metaclass pass"})
+        elif any(isinstance(x, ast.Attribute) and x.attr == "SUPPORTED_JSON_PATH_PARTS" for x in ast.walk(tr)):
+            ctx.ok(inst, {"class": c.key, "pruned_by": "explicit filter on SUPPORTED_JSON_PATH_PARTS in the class body"})
+        else:
+            ctx.fail(c.module, tr, c.key, f"TRANSFORMS = {{**{spreads[0]}, ...}}",
+                     f"{c.name} copies {spreads[0]} when its module is imported but is not the generator class of any dialect, so nothing prunes the JSON-path entries "
+                     f"its parent does not support: importing this module before the parent's dialect class exists yields a different table (and different SQL)")
+    ctx.count("generator_classes_copying_a_parent_table", n)
+    ctx.min_instances("generator_classes_copying_a_parent_table", n, 8)
+
+
+RULES = [rule_b_reset, rule_b_generator, rule_c, rule_d, rule_e, rule_f, rule_a]
 EXPLANATION = (
     "Determinism discipline decided from the source: (a) with mypy-inferred types, every iteration over a set-typed expression in "
     "the package is located and its consumer classified as order-insensitive or not; (b) sibling agreement between __init__ and "
